@@ -38,6 +38,7 @@ Cases ==
   \cup ({"test"} \X N1 \X N1 \X Types \X N1 \X N1)
   \cup ({"opasg", "aopasg"} \X AsgOps \X N1 \X Types \X Types \X N1)       \* object x : a  op=  y : b  (aopasg: _Atomic a)
   \cup ({"incdec", "aincdec"} \X IncDecKinds \X N1 \X Types \X N1 \X N1)
+  \cup ({"fcmp"} \X {"lt", "gt", "le", "ge", "eq", "ne", "land", "lor", "lnot"} \X N1 \X N1 \X N1 \X N1)   \* FV[x] op FV[y]
   \cup ({"case"} \X N1 \X N1 \X Types \X Types \X N1)          \* switch (x : a) { case (y : b): }
   \cup ({"enum"} \X AsgOps \X N1 \X Types \X N1 \X N1)          \* enum { N = x }; { enum { N = N op (y : a), M }; }
   \cup ({"cc"} \X N1 \X N1 \X Types \X Types \X Types)           \* (c)(b) x, x : a   (cast chain)
@@ -63,6 +64,7 @@ Next == /\ ph = 0 /\ ph' = 1
            ELSE IF sh \in {"d2l", "d2r", "d2u"}
            THEN x' \in Bnd(a) /\ y' \in Bnd(b) /\ z' \in Bnd(c)
            ELSE IF sh = "cond" THEN x' \in Bnd(a) /\ y' \in Bnd(b) /\ z' \in All(c)
+           ELSE IF sh = "fcmp" THEN x' \in 1..Len(FV) /\ y' \in 1..Len(FV) /\ z' = 0
            ELSE IF sh = "case" THEN x' \in All(a) /\ y' \in All(b) /\ z' = 0
            ELSE IF sh = "enum" THEN x' \in Bnd("int") /\ y' \in All(a) /\ z' = 0
            ELSE IF sh \in {"opasg", "aopasg"} /\ ~OpAsgAll THEN x' \in Bnd(a) /\ y' \in Bnd(b) /\ z' = 0
@@ -134,6 +136,10 @@ Tree == CASE sh = "bin"  -> BinE(op, L(a, x), L(b, y))
                             ELSE UnE(op2, BinE(op, L(a, x), L(b, y)))
           [] OTHER -> L("int", 0)
 ConstInv == (ph = 1 /\ sh \in {"bin", "un", "cast", "cond", "cc", "d2l", "d2r", "d2u"}) => ConstAgrees(Tree)
+
+(* floating operands of comparisons, !, &&, ||: eval3 folds them to the C11 / IEC 60559 truth value,
+   in particular 0 for every ordered comparison with a NaN operand *)
+FltInv == (ph = 1 /\ sh = "fcmp") => CEFCmp(op, FV[x], FV[y]) = FCmp(op, FV[x], FV[y]).v
 
 (* switch: the case chibicc's compare selects is the case C11 selects, the label being what eval2 folded
    from a literal of type b (ConstEval), for every controlling value, label value and garbage pattern *)
